@@ -29,7 +29,8 @@ func runC21(c *Ctx) {
 		var routees types.Object
 		for _, fld := range rbs.Decl.Type.Params.List {
 			for _, n := range fld.Names {
-				if n.Name == "routees" {
+				// the slice parameter (the candidate routees), whatever it is called
+				if _, isSlice := info.TypeOf(fld.Type).Underlying().(*types.Slice); isSlice && routees == nil {
 					routees = info.Defs[n]
 				}
 			}
@@ -46,7 +47,17 @@ func runC21(c *Ctx) {
 				if !ok {
 					return true
 				}
-				if o := objOf(fn.Info(), ix.X); o == nil || o.Name() != "routees" {
+				// an index into the function's routee slice parameter
+				isRouteeParam := false
+				if o := objOf(fn.Info(), ix.X); o != nil {
+					ps := fn.Obj.Type().(*types.Signature).Params()
+					for i := 0; i < ps.Len(); i++ {
+						if _, isSlice := ps.At(i).Type().Underlying().(*types.Slice); isSlice && o == types.Object(ps.At(i)) {
+							isRouteeParam = true
+						}
+					}
+				}
+				if !isRouteeParam {
 					return true
 				}
 				n++
@@ -173,6 +184,14 @@ func runC21(c *Ctx) {
 
 	c.Rule("fan-out", func() {
 		info := rbs.Info()
+		var routeesParam types.Object
+		if ps := rbs.Obj.Type().(*types.Signature).Params(); ps.Len() > 0 {
+			for i := 0; i < ps.Len(); i++ {
+				if _, isSlice := ps.At(i).Type().Underlying().(*types.Slice); isSlice {
+					routeesParam = ps.At(i)
+				}
+			}
+		}
 		var sw *ast.SwitchStmt
 		ast.Inspect(rbs.Decl.Body, func(n ast.Node) bool {
 			if s, ok := n.(*ast.SwitchStmt); ok && sw == nil {
@@ -207,7 +226,7 @@ func runC21(c *Ctx) {
 		okLoop := rng != nil
 		tells := 0
 		if okLoop {
-			if o := objOf(info, rng.X); o == nil || o.Name() != "routees" {
+			if o := objOf(info, rng.X); o == nil || o != routeesParam {
 				okLoop = false
 			}
 			loopVar := info.ObjectOf(rng.Value.(*ast.Ident))
